@@ -578,6 +578,38 @@ int main(int argc, char** argv) {
         }
       }
     } while (std::next_permutation(perm.begin(), perm.end()));
+  } else if (part == "xpoly") {
+    // boundary of the 4-dimensional cross-polytope: 8 points, the 4 antipodal pairs at distance 3, the 24 other pairs at
+    // distances from vals - the smallest Rips complexes carrying a class of dimension 3 (born with the last of the 16
+    // tetrahedra, killed at 3). Every assignment of vals to the first `free` non-antipodal pairs (the others keep the
+    // first value), two placements of the antipodal pairs; replays are plain "matrix" cases.
+    std::vector<double> vals = parse_doubles(a.get("vals", "1,2"));
+    int nfree = (int)a.geti("free", 24);
+    std::string prem = std::string("part=matrix;T=") + T_name;
+    for (int pairing = 0; pairing < 2; ++pairing) {
+      auto antipodal = [&](int i, int j) { return pairing == 0 ? (i / 2 == j / 2) : ((i % 4) == (j % 4)); };
+      std::vector<std::pair<int, int>> pr;
+      for (int i = 0; i < 8; ++i) for (int j = 0; j < i; ++j) if (!antipodal(i, j)) pr.push_back({i, j});
+      if (nfree > (int)pr.size()) nfree = (int)pr.size();
+      std::vector<size_t> digit(nfree, 0);
+      for (;;) {
+        if (mine()) {
+          Mat m(8);
+          for (int i = 0; i < 8; ++i) for (int j = 0; j < i; ++j) if (antipodal(i, j)) m.set(i, j, 3);
+          for (size_t k = 0; k < pr.size(); ++k) m.set(pr[k].first, pr[k].second, (int)k < nfree ? vals[digit[k]] : vals[0]);
+          std::string base = prem + ";n=8;d=" + m.lower_str();
+          vf::stats().add("inputs.cross_polytopes");
+          for_cfgs(g, 8, [&](const Cfg& c) {
+            std::string cs = base + cfg_str(c);
+            run_dense_case(cs, m, nullptr, c);
+            sample_case(cs, 3);
+          });
+        }
+        int k = 0;
+        while (k < nfree && ++digit[k] >= vals.size()) { digit[k] = 0; ++k; }
+        if (k == nfree) break;
+      }
+    }
   } else if (part == "big") {
     run_big_part(a, g, pre, idx);
   } else {
